@@ -22,6 +22,7 @@ class Branch:
     cases: list   = field(default_factory = list)  # list of case IDs
     types: list   = field(default_factory = list)  # list of case types
     nodes: dict   = field(default_factory = dict)  # number of node definitions
+    indent: int   = 0                              # indent of the case/else/end clauses
     
 @dataclass
 class BranchingList:
@@ -48,13 +49,13 @@ class BranchingList:
         branch_id = self._get_branch_id()
         return self.branches[branch_id].cases[-1]
         
-    def _open_branch(self, case_id):
+    def _open_branch(self, case_id, indent):
         """ Start a new branch
         """
         self.num_branches += 1        
         branch_id = f"{Sign.CONDITION}{self.num_branches}"
         self.state.append(branch_id)
-        self.branches[branch_id] = Branch([case_id], [Keyword.CASE])
+        self.branches[branch_id] = Branch([case_id], [Keyword.CASE], indent=indent)
         return 0  # branch_part
     
     def _switch_case(self, case_id, case_type):
@@ -79,6 +80,17 @@ class BranchingList:
         self.num_cases += 1
         return self.num_cases
     
+    def close_branches(self, node):
+        """ Close all branches whose clauses ended at the indent of a new code line
+
+        :param node: Node parsed from a code line
+        """
+        while self.state:
+            indent = self.branches[self._get_branch_id()].indent
+            if node.indent>indent or (node.indent==indent and node.keyword=='case'):
+                break
+            self._close_branch()
+
     def false_case(self):
         """ Checks if case value is false
         """
@@ -98,34 +110,24 @@ class BranchingList:
         """
         if m := re.match(f"(.*{Sign.CONDITION})([0-9]+)$", node.name):
             path_new = m.group(1)
-            path_old = ''
-            if self.state:
-                id_old = self._get_case_id()
-                path_old = self.cases[id_old].path
+            # clauses of the current branch have the same indent, lower branches are already closed
+            branch = self.branches[self._get_branch_id()] if self.state else None
+            if branch and branch.indent!=node.indent:
+                branch = None
             if node.case_type==Keyword.CASE:
                 pass
-            elif node.case_type==Keyword.ELSE and self.cases:
+            elif node.case_type==Keyword.ELSE and branch:
                 pass
-            elif node.case_type==Keyword.END and self.cases and path_old==path_new:
+            elif node.case_type==Keyword.END and branch:
                 self._close_branch()
                 return
             else:
                 raise Exception(f"Invalid condition:", node.code)
             case_id = fr"{Sign.CONDITION}{m.group(2)}"
-            if path_new==path_old:  # same branch
+            if branch:  # same branch
                 branch_part = self._switch_case(case_id, node.case_type)
-            elif path_new<path_old: # lower branch
-                # close openned branches unitil the same branch is reached
-                while path_new!=path_old:
-                    self._close_branch()
-                    if self.state:
-                        id_old = self._get_case_id()
-                        path_old = self.cases[id_old].path
-                    else:
-                        path_old = ''
-                branch_part = self._switch_case(case_id, node.case_type)
-            else:                   # new branch
-                branch_part = self._open_branch(case_id)
+            else:       # new branch
+                branch_part = self._open_branch(case_id, node.indent)
             branch_id = self._get_branch_id()
             self.cases[case_id] = Case(
                 path        = path_new,          # path of a new case
@@ -147,9 +149,6 @@ class BranchingList:
         """
         if not self.state: # outside of any condition
             return
-        case = self._get_case_id()
-        if not node.name.startswith(self.cases[case].path): # ending case at lower indent
-            self._close_branch()
         if self.state:
             node.branch_id = self._get_branch_id()
             node.case_id   = self._get_case_id()
